@@ -391,7 +391,9 @@ func oracleC10(t *Trace, v *vset) {
 				perGen := map[int]int{}
 				for _, run := range t.Runs(a.Path) {
 					perGen[run[0].Gen]++
-					if run[len(run)-1].ExitSeq >= 0 {
+					// the run finished as far as the engine is concerned: its last invocation
+					// returned or timed out (as opposed to being cut by a crash)
+					if last := run[len(run)-1]; last.ExitSeq >= 0 || (last.Deadline > 0 && last.Ended && last.EndT == last.Deadline) {
 						ran = true
 					}
 				}
